@@ -13,7 +13,7 @@ class C03(InterpProp):
     cmp_callbacks = False
     cmp_err = 'class'
     cmp_time = False
-    quick_cases = 1000
+    quick_cases = 2500
     thorough_cases = 40000
     n_ops = 36
     rule = ('random well-formed charts with entry/exit/action code on most objects (deep orthogonal nesting) × '
